@@ -3,6 +3,8 @@ from . import hashing as H
 
 
 def check(ck):
+    from .memo import check_new_memo_tables
+    ck.run(check_new_memo_tables, ck, "C14.M1", ('memento', 'code_hash', 'dependency_graph'))
     ck.run(H.check_descent_complete, ck, "C14.R1")
     ck.run(H.check_dotted_names, ck, "C14.R1b")
     ck.run(H.check_graph_derivation, ck, "C14.R2")
